@@ -8,6 +8,8 @@ CPython(P') and, because T1/T3 preserve Python semantics, trace(P) == trace(P').
 """
 from __future__ import annotations
 
+import re
+
 from hypothesis import Phase, given, seed as hseed, strategies as st
 
 from vlib import diff, fwbuild as fb, tracecmp as tc
@@ -367,6 +369,15 @@ class B:
                     folded[i_] = q
         self.body["lit"].append(f"lcd.glyph({slot_e}, {rows!r})")
         self.body["var"].append(f"lcd.glyph({slot_e}, [{', '.join(folded)}])")
+        named = [i_ for i_ in range(8) if re.fullmatch(r"d\d+", folded[i_])]
+        if len(named) >= 2 and self.draw(st.booleans()):
+            # the same bitmap expression once more after two of its names were re-bound by one tuple assignment: the text is identical, the value is not
+            ia, ib = named[0], named[-1]
+            na, nb = self.draw(st.integers(0, 31)), self.draw(st.integers(0, 31))
+            rows2 = list(rows); rows2[ia], rows2[ib] = na, nb
+            self.body["lit"].append(f"lcd.glyph({slot_e}, {rows2!r})")
+            self.body["var"] += [f"{folded[ia]}, {folded[ib]} = {na}, {nb}", f"lcd.glyph({slot_e}, [{', '.join(folded)}])"]
+            self.stale_possible = True
         return "glyph"
 
     def s_sensor_model(self):
